@@ -38,7 +38,7 @@ FUNCTIONS = [
     "fdtdx.fdtd.update.pad_fields_with_symmetry_mirror + interpolate_fields (detector clause)",
     "fdtdx.objects.boundaries.pec.PerfectElectricConductor.apply_post_E_update",
 ]
-STUBS = ["detector schedule arrays arbitrary (C14)"]
+STUBS = ["detector schedule arrays arbitrary, with 0 <= idx[t] < rows (C14)"]
 ASSUMPTIONS = [
     "real arithmetic",
     "materials do not vary along the symmetry axis (property text); isotropic/diagonal tiers and electric conductivity",
@@ -166,6 +166,102 @@ def _task(spec):
     return body
 
 
+def _detector_task(spec):
+    """co-located detector records: a FieldDetector box touching the plane in the reduced run (mirror halo)
+    against the box at the same physical cells in the full run (ordinary neighbours)"""
+
+    def body(c, inp):
+        import fdtdx
+        import fdtdx.fdtd.update as U
+        from fdtdx.fdtd.container import ArrayContainer, FieldState
+
+        a = spec["axis"]
+        far, trans = spec["far"], spec["trans"]
+        red_shape = list(scene.sym_shape())
+        n = red_shape[a]
+        inp.scalar("n", n)
+        full_shape = list(red_shape)
+        full_shape[a] = n * 2
+        red_shape, full_shape = tuple(red_shape), tuple(full_shape)
+        rest = [x for x in range(3) if x != a]
+        assign_red, assign_full = [None] * 3, [None] * 3
+        assign_red[a], assign_full[a] = ("pec", far), (far, far)
+        for x, p in zip(rest, trans):
+            assign_red[x] = assign_full[x] = p
+        sym = [0, 0, 0]
+        sym[a] = -1
+        cfg_r = scene.make_config(symmetry=tuple(sym))
+        cfg_f = scene.make_config(courant=cfg_r.__dict__["_sym_courant"], spacing=cfg_r.grid.__dict__["spacing"])
+        bnd_r = K.make_boundaries(tuple(assign_red), red_shape, cfg_r)
+        bnd_r = [b.aset("_is_symmetry_wall", True) if (b.axis == a and b.direction == "-") else b for b in bnd_r]
+        bnd_f = K.make_boundaries(tuple(assign_full), full_shape, cfg_f)
+        L = sym_int("L", lo=1)
+        c.assume((L + 1 <= n * 2).z)
+        inp.scalar("L", L)
+        d = sym_int("d", lo=1)
+        c.assume((d <= n).z)
+        inp.scalar("d", d)
+        T = K.sym_time_total()
+        rows = sym_int("rows", lo=1)
+        Ef, Hf0 = K.wall_facts(tuple(assign_red), red_shape)
+
+        def Hf(v, idx):
+            base = Hf0(v, idx)
+            if idx[0] == a:
+                return A._vand(base, A._vor(A._vnot(idx[1 + a] == 0), A.v_eq(v, 0)))
+            return base
+
+        red = scene.make_arrays(red_shape, eps_tier=1, mu_tier="scalar", E_fact=Ef, H_fact=Hf)
+        Hprev_r = A.fresh_array("H_prev", (3, *red_shape), "real", fact=Hf)
+
+        def full_field(R, kind, name):
+            G = A.fresh_array(name + "_below_L", (3, *full_shape))
+
+            def fn(idx):
+                w = tuple(A._wrap_idx(i) for i in idx[1:])
+                return ite(w[a] >= L, unfold_value(R, kind, idx[0], a, n, w), G.at_index(idx))
+
+            return SymArray((3, *full_shape), fn, "real")
+
+        def detector(box, cfg):
+            det = fdtdx.FieldDetector(name="det", exact_interpolation=True)
+            det = scene._place(det, box, cfg)
+            det = det.aset("_is_on_at_time_step_arr", A.full((T,), True, "bool"), create_new_ok=True)
+            return det.aset("_time_step_to_arr_idx", idxmap, create_new_ok=True)
+
+        idxmap = A.fresh_array("idxmap", (T,), "int", fact=lambda v, i: A._vand(v >= 0, v < rows))
+        box_r = [(0, m) for m in red_shape]
+        box_r[a] = (0, d)
+        box_f = [(0, m) for m in full_shape]
+        box_f[a] = (n, n + d)
+        dshape = tuple(hi - lo for lo, hi in box_r)
+        state0 = A.fresh_array("state", (rows, 6, *dshape), "real")
+        red = red.aset("detector_states", {"det": {"fields": state0}})
+        full = ArrayContainer(
+            fields=FieldState(E=full_field(red.fields.E, "E", "E"), H=full_field(red.fields.H, "H", "H"), psi_E={}, psi_H={}),
+            inv_permittivities=A.fresh_array("inv_eps_full", (1, *full_shape), fact=lambda v, i: v > 0),
+            inv_permeabilities=1.0,
+            detector_states={"det": {"fields": state0}},
+            recording_state=None,
+        )
+        Hprev_f = full_field(Hprev_r, "H", "H_prev")
+        inp.array("E_reduced", red.fields.E)
+        inp.array("H_reduced", red.fields.H)
+        inp.array("H_prev_reduced", Hprev_r)
+        inp.note("spec", {k: str(v) for k, v in spec.items()})
+        objs_r = scene.make_objects(red_shape, cfg_r, bnd_r, [detector(box_r, cfg_r)])
+        objs_f = scene.make_objects(full_shape, cfg_f, bnd_f, [detector(box_f, cfg_f)])
+        t_arr, t = K.time_scalar("t")
+        c.assume((t < T).z)
+        c.cover("pre")
+        new_r = U.update_detector_states(t_arr, red, objs_r, cfg_r, Hprev_r, inverse=False).detector_states["det"]["fields"]
+        new_f = U.update_detector_states(t_arr, full, objs_f, cfg_f, Hprev_f, inverse=False).detector_states["det"]["fields"]
+        # the co-location stencil reads one cell below: full index n + j needs n + j - 1 >= L
+        prove_arrays_equal("detector_record_full==reduced_outside_influence_region", new_f, new_r, where=lambda idx: idx[2 + a] + n >= L + 1)
+
+    return body
+
+
 def tasks(tier, seed):
     out = {}
     fars = [None, "pec", "pmc"] if tier == "quick" else [None, "pec", "pmc"]
@@ -177,4 +273,7 @@ def tasks(tier, seed):
                     out[f"axis{a}/far={far}/trans{ti}/e{e}m{m}s{s}"] = Task(_task(dict(axis=a, far=far, trans=tr, eps=e, mu=m, sigE=s)), max_paths=256)
         # the discarded half's far boundary may differ in kind from the kept one (it only matters inside the influence region)
         out[f"axis{a}/far=None/lower=pmc"] = Task(_task(dict(axis=a, far=None, lower="pmc", trans=trans_opts[0], eps=3, mu=1, sigE=None)), max_paths=256)
+        for fi, far in enumerate(fars if tier == "thorough" else fars[:2]):
+            for ti, tr in enumerate(trans_opts if (tier == "thorough" or fi == 0) else trans_opts[:1]):
+                out[f"detector/axis{a}/far={far}/trans{ti}"] = Task(_detector_task(dict(axis=a, far=far, trans=tr)), max_paths=256)
     return out
